@@ -169,23 +169,26 @@ func (c *ChunkBuffer) ChunkedString(level, offset int) string {
 		// prefix operator
 		case Prefix:
 			// prefix operators may be stacked ("!!foo") or applied to a group ("!(foo || bar)")
+			head := state.isHead()
 			operand := c.readOperand(state, chunk)
 			operand += c.combineInfixChunk(state)
-			buf.WriteString(c.chunkString(state, operand))
+			buf.WriteString(c.chunkStringAt(state, operand, head))
 		// group operator
 		case Group:
 			// If group operator, inside expressions should be printed on the same line
+			head := state.isHead()
 			operand := c.readOperand(state, chunk)
 			operand += c.combineInfixChunk(state)
-			buf.WriteString(c.chunkString(state, operand))
+			buf.WriteString(c.chunkStringAt(state, operand, head))
 		// infix operator
 		case Infix:
 			buf.WriteString(c.chunkString(state, chunk.buffer))
 		// Otherwise (token), create chunk string
 		default:
 			// Pre-combine infix operator that must be placed on the same line
+			head := state.isHead()
 			chunk.buffer += c.combineInfixChunk(state)
-			buf.WriteString(c.chunkString(state, chunk.buffer))
+			buf.WriteString(c.chunkStringAt(state, chunk.buffer, head))
 		}
 	}
 }
@@ -343,12 +346,19 @@ func (c *ChunkBuffer) readGroup(state *ChunkState) string {
 
 // chunkString() returns chunked string
 func (c *ChunkBuffer) chunkString(state *ChunkState, expr string) string {
+	return c.chunkStringAt(state, expr, state.isHead())
+}
+
+// chunkStringAt() returns chunked string for an expression that starts at the head of line or not.
+// Reading an operand may reset the state (a line comment inside a group), so that the caller
+// needs to look at the state before it reads the operand, otherwise the separator is lost.
+func (c *ChunkBuffer) chunkStringAt(state *ChunkState, expr string, head bool) string {
 	var prefix string
 	buf := bufferPool.Get().(*bytes.Buffer) // nolint:errcheck
 	defer bufferPool.Put(buf)
 
 	buf.Reset()
-	if !state.isHead() {
+	if !head {
 		prefix = " "
 	}
 
